@@ -103,7 +103,7 @@ def _grid_cases(draw, tier):
     sub = None
     if d["kind"] != "volume" and draw(st.booleans()):
         sub = [draw(gen.params(pdim)), draw(gen.params(pdim))]
-    return {"defn": d, "n": list(ns), "single_delta": use_single_delta, "sub": sub}
+    return {"defn": d, "n": list(ns), "single_delta": use_single_delta, "sub": sub, "via_sample_size": draw(st.booleans())}
 
 
 def _multiset(pts):
@@ -117,12 +117,20 @@ def check_grid(case, ctx):
     R = build.exact_from(d, obj)
     ns = case["n"]
     pdim = len(ns)
-    if pdim == 1 or case["single_delta"]:
+    if case.get("via_sample_size"):
+        # the documented way to ask for N points per direction
+        ctx.label("via-sample_size-setter")
+        if pdim == 1 or case["single_delta"]:
+            obj.sample_size = ns[0]
+        else:
+            for k, nm in enumerate(("sample_size_u", "sample_size_v", "sample_size_w")[:pdim]):
+                setattr(obj, nm, ns[k])
+    elif pdim == 1 or case["single_delta"]:
         obj.delta = 1.0 / ns[0]
     else:
         obj.delta = tuple(1.0 / n for n in ns)
     ss = obj.sample_size if pdim > 1 else [obj.sample_size]
-    ctx.check(list(ss) == list(ns), "sample_size", "delta = 1/%r gives sample_size %r" % (ns, ss))
+    ctx.check(list(ss) == list(ns), "sample_size", "asking for %r samples per direction gives sample_size %r" % (ns, ss))
     dom = R.domain()
     start = [a for a, b in dom]
     stop = [b for a, b in dom]
